@@ -387,6 +387,11 @@ def session_case(seed):
             spaced.append(("sleep", 0.0137))
         spaced.append(st)
     script = spaced
+    # graceful shutdown begins at some point of some sessions (context.terminated, as worker_serve sets it)
+    rt = random.Random(seed ^ 0x5EED)
+    if rt.random() < 0.2 and kind != "ws":
+        at = rt.randrange(0, len(script) + 1)
+        script = script[:at] + [("sleep", 0.0171), ("terminate",), ("sleep", 0.0171)] + script[at:]
     # likewise an application that answers on the very instant at which the reader resumes over input that is already
     # buffered (a pipelined request, surplus bytes, the client's EOF) races with the reader, and each runtime's scheduler
     # settles that race its own way: every application send (and failure, and return) gets its own instant too
